@@ -23,6 +23,8 @@ fn space(k: usize) -> ForestSpace {
     let i = || name("i");
     let atoms = vec![
         Stmt::Row(vec![l(10), Entry::Lit(0x1F, Radix::HexUp), l(0)]),
+        // a literal directly behind a unary minus (first literal of the row: the malformed variants put 2^63 / 2^64-1 there)
+        Stmt::Row(vec![Entry::Paren(un(UnOp::Neg, lit(5))), l(1), Entry::X]),
         // a literal that starts with 0 in front of one that starts with 8 / 9 / a letter-like entry
         Stmt::Row(vec![l(0), l(8), l(9)]),
         Stmt::Row(vec![l(11), Entry::Lit(0xB0, Radix::Hex), Entry::Lit(0xBB, Radix::HexUp)]),
@@ -172,8 +174,49 @@ fn load_via_dig(text: &str, sigs: &[Sig]) -> Result<dtr::TestCase, ObsInit> {
     }
 }
 
+thread_local! {
+    /// the canonical text of the program under examination: the file object is first loaded with it
+    static CANONICAL: std::cell::RefCell<Option<String>> = const { std::cell::RefCell::new(None) };
+}
+
+/// The document is parsed with the canonical text and its test loaded once; then the public field
+/// `test_cases[0].source` is overwritten with `text` and the test is loaded again from the same
+/// file object: it is the test of the text the file now holds.
+fn load_via_edited_dig(canonical: &str, text: &str, sigs: &[Sig]) -> Result<dtr::TestCase, ObsInit> {
+    use crate::digxml::{self, Pin, PinKind};
+    let pins: Vec<Pin> = sigs
+        .iter()
+        .map(|s| {
+            let p = Pin::new(if s.is_in() { PinKind::In } else { PinKind::Out }, &s.name).bits(&format!("{}", s.bits));
+            match s.default() {
+                Some(V::Num(n)) => p.default(digxml::Default::Value(n)),
+                Some(_) => p.default(digxml::Default::Z),
+                None => p,
+            }
+        })
+        .collect();
+    let doc = digxml::render(&pins, &[digxml::TestDesc { label: Some("t".into()), source: canonical.to_string(), extra: vec![] }]);
+    let text = text.to_string();
+    match guard(DEFAULT_BUDGET, move || {
+        let mut f = dtr::dig::File::parse(&doc).map_err(|e| ObsInit::ParseErr(miette_chain(&e)))?;
+        let _ = f.load_test(0);
+        let _ = f.load_test_by_name("t");
+        f.test_cases[0].source = text;
+        let g = f.clone();
+        g.load_test(0).map_err(|e| match e {
+            dtr::errors::LoadTestError::ParseError(p) => ObsInit::ParseErr(format!("{p:?}")),
+            other => ObsInit::BindErr(miette_chain(&other)),
+        })
+    }) {
+        Ok(r) => r,
+        Err(Caught::Panic(s)) => Err(ObsInit::Panic(s)),
+        Err(Caught::Watchdog) => Err(ObsInit::Watchdog),
+    }
+}
+
 fn behaviour_via(text: &str, sigs: &[Sig], script: &[Step], max_rows: usize, via_dig: bool) -> Behaviour {
-    let tc = match if via_dig { load_via_dig(text, sigs) } else { load(text, sigs, DEFAULT_BUDGET) } {
+    let canonical = CANONICAL.with(|c| c.borrow().clone());
+    let tc = match if via_dig { match &canonical { Some(c) if c != text => load_via_edited_dig(c, text, sigs), _ => load_via_dig(text, sigs) } } else { load(text, sigs, DEFAULT_BUDGET) } {
         Ok(tc) => tc,
         Err(ObsInit::ParseErr(_)) => return Behaviour { verdict: "rejected by from_str".into(), stat: vec![], dynamic: vec![], log: vec![] },
         Err(ObsInit::BindErr(_)) => return Behaviour { verdict: "rejected by with_signals".into(), stat: vec![], dynamic: vec![], log: vec![] },
@@ -242,7 +285,14 @@ fn examine(st: &mut Stats, u: u64, k: usize, variant: u64, ls: &[Line], layouts:
         // involves a carriage return, every fifth of the others)
         let cr = lay.iter().any(|d| matches!(d, Dev::CrlfAll | Dev::CrlfLine(_)) || matches!(d, Dev::Gap(_, _, g) | Dev::TrailingSpace(_, g) | Dev::Indent(_, g) if g.contains('\r')) || matches!(d, Dev::Insert(_, c) if c.contains('\r')));
         if accepted && (cr || li % 5 == 0) {
+            // every other time through a file object that was first loaded with the canonical text and
+            // whose source field was then overwritten
+            if li % 2 == 0 {
+                CANONICAL.with(|c| *c.borrow_mut() = Some(base.text.clone()));
+                st.witness("source_field_of_a_loaded_file_edited_then_loaded_again");
+            }
             let bd = behaviour_via(&laid.text, sigs, script, max_rows, true);
+            CANONICAL.with(|c| *c.borrow_mut() = None);
             st.witness("rewritten_text_loaded_from_a_dig_document");
             if bd != b {
                 mism = Some(format!("dig: loaded as the source of a test in a .dig document the rewritten text behaves differently ({}) than parsed directly ({})", bd.verdict, b.verdict));
@@ -399,7 +449,7 @@ pub fn run(tier: Tier, seed: u64) -> i32 {
         seed,
         rule: "every program of the space (and two malformed variants of each) x every set of at most 2 layout deviations: each inter-token gap -> {two spaces, tab, ' \\r', '\\r ', tab-space-tab, nothing (only where the reference lexer still reads the same two tokens)}, indentation, trailing blank space, '#' comment appended to a line after the header, blank/comment line inserted anywhere after the header, CRLF on one line or all, no final newline, each literal -> every other radix spelling; plus long programs of 9..90 short rows under one deviation on one line / on every line / CRLF throughout; metamorphic comparison with the canonical layout; every rewriting is non-trivial".into(),
         assumptions: vec!["no reference semantics: only pairwise equality of verdict, rows (static and dynamic) and the vectors the driver was handed; which token pairs may be joined is decided by the reference lexer (refgrammar::lex)".into()],
-        required_witnesses: vec!["accepted_program", "rejected_program", "gap_removed", "blank_space_changed", "literal_in_another_radix", "comment_appended", "line_inserted", "crlf", "no_final_newline", "long_program", "rewritten_text_loaded_from_a_dig_document"],
+        required_witnesses: vec!["accepted_program", "rejected_program", "gap_removed", "blank_space_changed", "literal_in_another_radix", "comment_appended", "line_inserted", "crlf", "no_final_newline", "long_program", "rewritten_text_loaded_from_a_dig_document", "source_field_of_a_loaded_file_edited_then_loaded_again"],
         exhaustive_note: "all programs x all rewritings within the bounds".into(),
         e1: false,
     };
@@ -414,7 +464,11 @@ pub fn replay_layout(j: &serde_json::Value) -> Vec<String> {
     let b0 = behaviour_n(canonical, &sigs, &script, max_rows);
     let b = behaviour_n(j["text"].as_str().unwrap_or(""), &sigs, &script, max_rows);
     if j["via_dig"].as_bool().unwrap_or(false) {
-        let bd = behaviour_via(j["text"].as_str().unwrap_or(""), &sigs, &script, max_rows, true);
+        CANONICAL.with(|c| *c.borrow_mut() = Some(canonical.to_string()));
+        let bd1 = behaviour_via(j["text"].as_str().unwrap_or(""), &sigs, &script, max_rows, true);
+        CANONICAL.with(|c| *c.borrow_mut() = None);
+        let bd2 = behaviour_via(j["text"].as_str().unwrap_or(""), &sigs, &script, max_rows, true);
+        let bd = if bd1 != b { bd1 } else { bd2 };
         return vec![if bd == b { "same behaviour when loaded from a .dig document".to_string() } else { "differs when loaded from a .dig document".to_string() }];
     }
     vec![if b == b0 { "same behaviour as the canonical layout".to_string() } else { format!("{} / differs from canonical ({})", b.verdict, b0.verdict) }]
